@@ -145,9 +145,9 @@ static const char* ell_class_name(int ellc) {
   return n[ellc];
 }
 
-enum { OF_ALLMAX = 0, OF_MAX_X_TOPBIT_Y, OF_ALTERNATING, OF_SINGLE, OF_TOPBIT, OF_NEARMAX_DISTINCT, OF_MAX_X_PROPER_C, OF_LANE_MIX, OF_N };
+enum { OF_ALLMAX = 0, OF_MAX_X_TOPBIT_Y, OF_ALTERNATING, OF_SINGLE, OF_TOPBIT, OF_NEARMAX_DISTINCT, OF_MAX_X_PROPER_C, OF_LANE_MIX, OF_CARRY, OF_N };
 static const char* opfam_name(int f) {
-  static const char* n[] = {"all-maximal", "max-x-topbit-y", "max/min-alternating", "single-maximal", "topbit-random", "near-max-distinct", "max-x-proper-c", "per-lane zero/maximal mix"};
+  static const char* n[] = {"all-maximal", "max-x-topbit-y", "max/min-alternating", "single-maximal", "topbit-random", "near-max-distinct", "max-x-proper-c", "per-lane zero/maximal mix", "accumulators on a 32-bit carry boundary"};
   return n[f];
 }
 static uint64_t maxw(int kern) { return kern == K_BAA ? 0xFFFFFFFFull : UINT64_MAX; }
@@ -215,6 +215,40 @@ static void run_product(Ctx& c, int kern, int ellc, int opfam, uint64_t seed) {
       else
         for (uint64_t w = 0; w < sh.yw32 / 2; ++w)
           if (!((my >> (w & 3)) & 1)) y32[i * sh.yw32 + 2 * w] = y32[i * sh.yw32 + 2 * w + 1] = 0;
+    }
+  }
+  if (opfam == OF_CARRY && ell >= 1) {
+    // Carry boundaries of the lazy accumulators.  The b x c kernels add up the 32-bit halves of the 64-bit partial products
+    // xl*c0 and xh*c1 separately; the last row is chosen so that the sum of the HIGH halves is congruent to 2^32-1-d (d < 2^14)
+    // modulo 2^32 for every x word (first column), i.e. the accumulator sits just below a carry into its next 32-bit word.  For the
+    // kernels without c-layout operand the family is top-bit random data.
+    for (uint64_t i = 0; i < ell; ++i) {
+      for (uint64_t w = 0; w < sh.xw; ++w) x[i * sh.xw + w] = topw(kern, r);
+      if (!sh.ycl) for (uint64_t w = 0; w < 4; ++w) y64[i * 4 + w] = topw(kern, r);
+      else for (uint64_t w = 0; w < sh.yw32; ++w) y32[i * sh.yw32 + w] = (uint32_t)r.next() | 0x80000000u;
+    }
+    if (sh.ycl) {
+      const uint64_t L = ell - 1;
+      for (uint64_t w = 0; w < sh.xw; ++w) {
+        uint64_t hi = 0;
+        for (uint64_t i = 0; i < L; ++i) {
+          const uint64_t xl = x[i * sh.xw + w] & 0xFFFFFFFFull, xh = x[i * sh.xw + w] >> 32;
+          hi += ((xl * y32[i * sh.yw32 + 2 * w]) >> 32) + ((xh * y32[i * sh.yw32 + 2 * w + 1]) >> 32);
+        }
+        const uint64_t c0 = y32[L * sh.yw32 + 2 * w];
+        const uint64_t c1 = 0xFFFFFFFFull - r.below(1024);
+        y32[L * sh.yw32 + 2 * w + 1] = (uint32_t)c1;
+        const uint64_t xl = r.next() & 0xFFFFFFFFull;
+        uint64_t xh = r.next() >> 32;
+        for (int attempt = 0; attempt < 8; ++attempt) {
+          const uint64_t target = 0xFFFFFFFFull - r.below(1 << 14);
+          const uint64_t h = (target - hi - ((xl * c0) >> 32)) & 0xFFFFFFFFull;
+          if (h + 2 >= c1) continue;
+          const uint64_t cand = ((h << 32) + c1 - 1) / c1;  // ceil(h * 2^32 / c1)
+          if (cand <= 0xFFFFFFFFull && ((cand * c1) >> 32) == h) { xh = cand; break; }
+        }
+        x[L * sh.xw + w] = xl | (xh << 32);
+      }
     }
   }
   const unsigned tp = topbit_percent(kern, ell, X, Y);
